@@ -166,6 +166,37 @@ def names_in_fresh_process(cases, hashseed):
     raise RuntimeError("fresh-process naming failed: " + r.stderr[-400:])
 
 
+NEIGHBOURS = ["sort_a", "sort_a_up4", "sort_a_desc", "set_index_a", "set_index_a_up4", "set_index_a_np3", "sort_a_np2", "sort_b_v", "set_index_b"]
+
+
+def neighbour_plans(order):
+    """Plan names of queries that differ in ONE planner knob, optimized one after the other in a fresh interpreter."""
+    import json
+
+    code = (
+        "import sys, json, warnings; warnings.filterwarnings('ignore'); sys.path.insert(0, %r); sys.path.append(%r)\n"
+        "from vf.rt.pool import _init; _init()\n"
+        "import numpy as np, pandas as pd, dask_expr as dx\n"
+        "rs = np.random.RandomState(11); n = 400\n"
+        "big = pd.DataFrame({'a': rs.permutation(n) * 0.25, 'b': rs.randint(0, 50, n), 'v': np.arange(n)})\n"
+        "df = lambda: dx.from_pandas(big, npartitions=4)\n"
+        "Q = {'sort_a': lambda: df().sort_values('a'), 'sort_a_up4': lambda: df().sort_values('a', upsample=4.0), 'sort_a_desc': lambda: df().sort_values('a', ascending=False),\n"
+        "     'set_index_a': lambda: df().set_index('a'), 'set_index_a_up4': lambda: df().set_index('a', upsample=4.0), 'set_index_a_np3': lambda: df().set_index('a', npartitions=3),\n"
+        "     'sort_a_np2': lambda: df().sort_values('a', npartitions=2), 'sort_b_v': lambda: df().sort_values(['b', 'v']), 'set_index_b': lambda: df().set_index('b')}\n"
+        "out = {}\n"
+        "for name in json.load(sys.stdin):\n"
+        "    q = Q[name]()\n"
+        "    o = q.optimize(fuse=False)\n"
+        "    out[name] = [o._name, [str(d) for d in o.divisions]]\n"
+        "print('@@' + json.dumps(out))\n"
+    ) % (os.path.dirname(os.path.dirname(os.path.dirname(os.path.abspath(__file__)))), os.path.join(os.path.dirname(os.path.dirname(os.path.dirname(os.path.abspath(__file__)))), ".overlay"))
+    r = subprocess.run([sys.executable, "-W", "ignore", "-c", code], input=json.dumps(order), capture_output=True, text=True, timeout=600)
+    for line in r.stdout.splitlines():
+        if line.startswith("@@"):
+            return json.loads(line[2:])
+    raise RuntimeError("neighbour plans failed: " + r.stderr[-400:])
+
+
 def replay_case(case):
     from vf.rt.pool import _init
 
@@ -211,6 +242,20 @@ def run(run):
                     run.violation("C19.xprocess:fused-plan-name-depends-on-process", f"{cid}|hashseed 0 vs {seed}", f"optimized(fuse=True) {nm[2]} vs {other[cid][2]}", {"kind": "none"})
     except Exception as ex:
         run.errors.append("cross-process naming: " + repr(ex)[:300])
+    # the plan of a query does not depend on which NEIGHBOURING query (same column, other knob) was planned before it
+    try:
+        fwd = neighbour_plans(NEIGHBOURS)
+        rev = neighbour_plans(NEIGHBOURS[::-1])
+        alone = {}
+        for nme in ("sort_a_up4", "set_index_a_up4"):
+            alone.update(neighbour_plans([nme]))
+        for nme in NEIGHBOURS:
+            run.count("C19.neighbours:plan-independent-of-planning-order", 1, nme, rule="queries on one column that differ in one knob (upsample, npartitions, ascending), planned in forward / reverse order and alone, each order in a fresh interpreter")
+            for label, other in (("reverse order", rev), ("alone", alone)):
+                if nme in other and other[nme] != fwd[nme]:
+                    run.violation("C19.neighbours:plan-depends-on-planning-order", f"{nme}|forward vs {label}", f"forward: {fwd[nme][0]} divisions {fwd[nme][1][:3]}..; {label}: {other[nme][0]} divisions {other[nme][1][:3]}..", {"kind": "none"})
+    except Exception as ex:
+        run.errors.append("neighbour plans: " + repr(ex)[:300])
     run.assume("termination of the rewrite system for programs outside the corpus is NOT decided; the bounded contract checks a step budget of 60*nodes^2+2000 rule firings and a 60 s watchdog per optimize() call")
     run.trust("vf/rt/corpus.py program catalogue")
 
